@@ -1,3 +1,4 @@
+import Sebuf.Gen.Decoders
 import Sebuf.Lemmas.Surgery
 import Sebuf.Lemmas.Bytes
 import Sebuf.Props.C14
@@ -201,5 +202,34 @@ end GoJsonTemplates
 /-- non-vacuity: a protojson object meeting the int64 contract. -/
 example : Int64Number.Contract "big".toList 5 [("a".toList, Json.bool true), ("big".toList, str (intToDec 5))] := by
   unfold Int64Number.Contract; decide
+
+/-- the statements by which an emitted decoder hands the (edited) document to `protojson.Unmarshal(…, x)`,
+which resets `x` before filling it. -/
+def resetStatements : List String := ["return protojson.Unmarshal(modified, x)", "return protojson.Unmarshal(remaining, x)"]
+
+def endsInProtojsonReset (shape : List String) : Bool :=
+  match shape.getLast? with
+  | some s => resetStatements.contains s
+  | none => false
+
+/-- the statements by which a root-unwrap decoder allocates its only field anew before filling it. -/
+def allocStatements : List String :=
+  ["x.Bars = make([]*Leaf, 0, len(itemsRaw))", "x.Items = make([]*Leaf, 0, len(itemsRaw))", "x.Entries = make(map[string]*Leaf)"]
+
+def allocatesItsField (shape : List String) : Bool := shape.any allocStatements.contains
+
+/-- the emitted decoders (of the decoder-zoo probe) that neither reset their target nor allocate their only
+field anew: what they leave of a value the target already held is up to the statements in between. -/
+def keepsTargetState : List String :=
+  (Gen.Decoders.unmarshalShape.filter fun p => !(endsInProtojsonReset p.2 || allocatesItsField p.2)).map (·.1)
+
+set_option maxRecDepth 20000 in
+/-- **which emitted decoders reset their target** (over the regenerated statement skeletons of the decoder-zoo
+probe): every generated `UnmarshalJSON` ends in `protojson.Unmarshal(…, x)` — which resets `x` — or allocates its
+only field anew, except the enum decoder (assigns `*x`), the map-value-unwrap container (`MapValReq`: assigns
+member by member and returns) and the scalar root unwrap (`json.Unmarshal(data, &x.<Field>)`: encoding/json
+truncates a slice but keeps the entries of a non-nil map). The last two are the recorded
+`decoder_keeps_target_state` findings; any other decoder joining this list is a regression. -/
+theorem decoders_that_keep_target_state : keepsTargetState = ["Status", "MapValReq", "UnwrapScalarsReq"] := by decide
 
 end Sebuf.C04
